@@ -821,6 +821,25 @@ _also("C17", "Also: shutdown() records the stop on every path (STOP-FLAG), and n
 _also("C18", "Also: the in-process region's pointer points into the Arc<Vec<u8>> stored beside it (SHM-INPROC).")
 _also("C20", "Also: a failed lazy decode on the consumer's thread releases the message's attachments (TLS-RESTORE).")
 
+# clauses bound after the sixth seeding round
+_also("C01", "Also: a message never carries more descriptors than the receiver's control buffer holds, counting the per-message socket (FD-BOUND); no socket is given its own SO_SNDBUF/SO_RCVBUF, "
+             "because packet sizes come from one process-wide measurement (SOCK-BUF).")
+_also("C02", "Also: FD-BOUND (a dropped per-message socket means an accepted message that is never completed) and RT-ORDER (the router hands the batch on in the order reported; a stable sort by member is accepted).")
+_also("C03", "Also: Disconnected is constructed only from the platform's closed-channel error (DISC-ORIGIN); in-process, accept() leaves no sender clone in the registry (OSS-OWN).")
+_also("C04", "Also: every receive offers the kernel the whole control buffer -- a header or landing buffer handed in by the caller is rebuilt between two receives (SCRATCH-FRESH).")
+_also("C05", "Also: a region keeps the descriptor of its backing object for as long as it lives (FD-MOVE, FD-CLOSE-OWNED): clones and transfers need it.")
+_also("C06", "Also: scratch values shared between the reads of one select() call are rebuilt for each read (SCRATCH-FRESH).")
+_also("C07", "Also (in-process): a routed receiver that came from a one-shot server can disconnect, because accept() removed the registry's sender clone (OSS-OWN).")
+_also("C08", "Also: the connection's socket keeps the default buffer size the packet sizes were computed for (SOCK-BUF); the copy of the name into sun_path is limited by sun_path's own length (COPY-BOUND).")
+_also("C10", "Also: a receive does not give the receiver's descriptor away or close it (RECV-KEEPS-FD); a wait built on select() bounds the descriptor against FD_SETSIZE (TIMEOUT-ARM).")
+_also("C12", "Also: accept(2) is called once per accept(): a client that died before its first message is an error, not a reason to wait for another client (OSS-SAMEFD).")
+_also("C14", "Also: a per-thread scalar cell written around the user's serialisation code and consulted by the attachment serialisers holds its entry value again at every normal return (TLS-RESTORE flag clause).")
+_also("C15", "Also: SCRATCH-FRESH -- a reused control-message header cuts descriptors off a later message although the sender stayed within the limit.")
+_also("C17", "Also: the proxy's locks are taken in one order by every entry point (LOCK-ORDER), and the function that records the stop waits for the acknowledgement on every path (STOP-FLAG ack-wait-skipped).")
+_also("C18", "Also: raw copies into fixed-size arrays inside structs are limited by the array's own length (COPY-BOUND); a first packet is the whole message only when its length equals the announced one (TRUNC-ERR).")
+_also("C19", "Also: the would-block answer of a polling receive is converted into Empty directly, in one place per layer, on every transport (TRY-CONV).")
+_also("C20", "Also (in-process): stream ids come from a counter that only grows (SET-ID).")
+
 
 # --------------------------------------------------------------------------- registry metadata
 NOT_APPLICABLE = {}
